@@ -72,6 +72,30 @@ Theorem C16_wellformed_after_leading_lines : forall pre0 l0 h e pre l sig,
 Proof. exact wellformed_with_hash_after. Qed.
 Print Assumptions C16_wellformed_after_leading_lines.
 
+(* ... and before dash-free lines after its signature block: a message that stands between blank
+   lines (or any lines that do not start with five dashes) yields exactly its signed text *)
+Theorem C16_wellformed_between_other_lines : forall pre0 l0 h e pre l sig trail,
+  Forall no_dashes pre0 -> Forall no_dashes trail ->
+  is_begin_signed l0 = true -> is_hash_line h = true -> is_eol e = true ->
+  sig <> [] -> armor_match sig = true -> no_inner_block sig -> ends_lf l = true ->
+  pgp_search_lines (pre0 ++ l0 :: h :: e :: pre ++ l :: sig ++ trail) = Some (Some (concat pre ++ chop_lf l)).
+Proof. exact wellformed_with_hash_around. Qed.
+Print Assumptions C16_wellformed_between_other_lines.
+
+Theorem C16_wellformed_without_hash_between_other_lines : forall pre0 l0 e pre l sig trail,
+  Forall no_dashes pre0 -> Forall no_dashes trail ->
+  is_begin_signed l0 = true -> is_eol e = true ->
+  sig <> [] -> armor_match sig = true -> no_inner_block sig -> ends_lf l = true ->
+  pgp_search_lines (pre0 ++ l0 :: e :: pre ++ l :: sig ++ trail) = Some (Some (concat pre ++ chop_lf l)).
+Proof. exact wellformed_without_hash_around. Qed.
+Print Assumptions C16_wellformed_without_hash_between_other_lines.
+
+(* dash-free lines appended to a list of lines complete no armor block in it *)
+Theorem C16_trailing_lines_complete_no_block : forall x trail,
+  Forall no_dashes trail -> armor_match (x ++ trail) = true -> armor_match x = true.
+Proof. exact armor_match_app_inv. Qed.
+Print Assumptions C16_trailing_lines_complete_no_block.
+
 (* white space around a text, of any amount, does not change whether it is an envelope *)
 Theorem C16_is_signed_ignores_padding : forall ws t ws',
   all_space ws = true -> all_space ws' = true -> is_signed (ws ++ t ++ ws') = is_signed t.
